@@ -71,7 +71,14 @@ type Server struct {
 
 // New starts a server on a loopback port.
 func New() *Server {
-	l, err := net.Listen("tcp", "127.0.0.1:0")
+	var l net.Listener
+	var err error
+	for i := 0; i < 50; i++ {
+		if l, err = net.Listen("tcp", "127.0.0.1:0"); err == nil {
+			break
+		}
+		time.Sleep(100 * time.Millisecond)
+	}
 	if err != nil {
 		panic(err)
 	}
@@ -90,6 +97,23 @@ func (s *Server) Close() {
 	for _, c := range s.conns {
 		c.Close()
 	}
+	s.mu.Unlock()
+}
+
+// Reset wipes all documents (collections keep existing, as after the server's own
+// initialisation), the command log, the plan and the window label.
+func (s *Server) Reset() {
+	s.mu.Lock()
+	for k := range s.colls {
+		if strings.Contains(k, ".-_-") {
+			s.colls[k] = nil
+		} else {
+			delete(s.colls, k)
+		}
+	}
+	s.Log = nil
+	s.plan = nil
+	s.window = ""
 	s.mu.Unlock()
 }
 
